@@ -300,6 +300,8 @@ def merge_stats(results):
 
 def save_replay(prop, tier, seed, src, tag=""):
     os.makedirs(REPLAYS, exist_ok=True)
+    if os.path.abspath(REPO) != "/repo":  # sensitivity runs on scratch copies may run in parallel: keep their replay files apart
+        tag += "-scratch" + hashlib.sha1(REPO.encode()).hexdigest()[:6]
     dst = os.path.join(REPLAYS, "%s-%s-seed%s%s.json" % (prop, tier, seed, tag))
     shutil.copyfile(src, dst)
     return dst
